@@ -10,14 +10,23 @@ RULE = ("op sequences over {add(event in 2, priority in {-1,0,5}, stops?), dispa
         "same event other priority, other event), add without a priority (default), dispatch of an ALREADY STOPPED event, and "
         "a listener that registers a new listener while it is called (same event at a lower / equal / higher priority, other "
         "event): exhaustive to length 3, and to length 4 (quick) / 5 (thorough) over 14 of them; seeded random sequences to "
-        "length 40 over all op kinds (six priorities); every sequence is followed by a fixed query suffix "
+        "length 40 over all op kinds (priorities from {-1, 0, 5, 2, 7, -3} and, in 30 % of the draws, from 20 values up to 2^40 "
+        "around the byte and word limits); the three events are called by one of six NAME SETS (e0/e1/e2; dotted names that are "
+        "prefixes of each other; names differing only in case or a trailing blank; '', ' ', '*'); callables are of three kinds by "
+        "creation order - a function, a function with other parameter names, a bound method of which every use (registration "
+        "again, get_listener_priority) fetches a new equal object; NESTED dispatches - a listener that dispatches a later event on "
+        "the dispatcher it is handed - exhaustive to length 3 (quick) / 4 (thorough) over 19 ops and in a fifth of the random "
+        "sequences, judged by the ORACLE ALONE (the expected flat call log is computed from the registrations; every dispatch, "
+        "outer or nested, hands ITS name, ITS one event object and the dispatcher to its listeners); every sequence is followed by a fixed query suffix "
         "(has_listeners(None/e), get_listener_priority for every (event, callable), dispatch and get_listeners per event); "
         "registrations go straight to an EventDispatcher, or through ApplicationConfig.add_event_listener (dispatcher made "
         "on demand / set beforehand); every listener records the (event, event_name, dispatcher) it is called with and the "
         "value dispatch returns is recorded; non-trivial = >= 2 registrations and >= 1 dispatch before the suffix; distinct "
         "by (op sequence, registration route)")
 TRUSTED = ["callables are identified by creation order; a listener created by another listener during a dispatch gets the next id "
-           "at that moment (harness and model count alike)"]
+           "at that moment (harness and model count alike)",
+           "a dispatch made from inside a listener (nested) has no Coq model: Model/Dispatcher.v's dispatch is not re-entrant; those "
+           "histories (600 exhaustive + 4 000 random in quick) are checked by the oracle only - testing, no theorem"]
 ASSUMPTIONS = ["priorities are ints",
                "for an event where one callable is registered more than once the oracle says nothing about multiplicity, order "
                "and get_listener_priority (the statement's 'each once' does not decide whether that is one listener or two); the "
